@@ -49,7 +49,8 @@ def check_writer_case(c, il, files):
             data[cur] += s[2]
             if r.startswith("throw"): threw[cur] = True
         else:
-            if r.startswith("throw"): threw[cur] = True
+            # a rotation that throws has not rotated: the output stays open (and has now seen an exception), the destination is not used
+            if r.startswith("throw"): threw[cur] = True; continue
             closed.append(cur); cur = s[1]; data.setdefault(cur, b""); threw.setdefault(cur, False)
     for o in closed:
         fn = ("out%d%s" % (o, ext)) if c["kind"] == "name" else "fd%d" % o
@@ -66,7 +67,7 @@ def check_writer_case(c, il, files):
                 idx = [j for j, x in enumerate(c["seg"]) if x[0] == "rot" and c["seg"][j - 1:j] and True]
                 cut = None; cur2 = 1
                 for j, x in enumerate(c["seg"][1:], 1):
-                    if x[0] == "rot":
+                    if x[0] == "rot" and not (j < len(res) and res[j].startswith("throw")):
                         if cur2 == o: cut = j; break
                         cur2 = x[1]
                 # (the calls before the closing rotation are replayed with a trace: did any write(2) to this output fail or come back short
